@@ -214,6 +214,7 @@ pub fn evaluate(spec: &Spec, completed: bool) -> Vec<Violation> {
             "c05_roles" => router::c05_roles(&mut cx),
             "c19_plugins" => router::c19_plugins(&mut cx),
             "c20_mirrors" => mirror::c20_mirrors(&mut cx),
+            "c15_config" => control::c15_config(&mut cx),
             "c07_bans" => routing::c07_bans(&mut cx),
             "c07_expiry" => routing::c07_expiry(&mut cx),
             other => {
